@@ -2,13 +2,13 @@ import sys, time, json
 sys.path.insert(0,'/verif')
 from pyvc import runner
 import importlib
-mod = importlib.import_module('contracts.c01')
+mod = importlib.import_module(sys.argv[1]); sys.argv.pop(1)
 names = sys.argv[1:] or [c.name for c in mod.CONTRACTS]
 for nm in names:
     C = mod.contract(nm)
     for cfg in C.configs('quick'):
         t=time.time()
-        r = runner.run_task(('contracts.c01','C01',nm,cfg,'quick',None))
+        r = runner.run_task((mod.__name__,'CXX',nm,cfg,'quick',None))
         st = {}
         for o in r['obligations']: st[o['status']] = st.get(o['status'],0)+1
         print(f"{nm} {runner.cfg_str(cfg)}: paths={r['paths']} {st} {time.time()-t:.1f}s", r['error'] or '')
